@@ -71,6 +71,7 @@ type Sim struct {
 	gates  map[string]chan struct{}
 	roles  map[uint64]string
 	entIDs map[any]int
+	nEnt   int
 
 	trace   []map[string]any
 	dgrams  []*dgram
@@ -151,14 +152,19 @@ func (s *Sim) emit(a string, kv ...any) {
 	s.trace = append(s.trace, m)
 }
 
+// entID maps an entry's channel to the entry number (order of registration). Addresses can be
+// reused by the allocator once an entry is dead, so a registration always takes a fresh number.
 func (s *Sim) entID(p any) int {
-	key := fmt.Sprintf("%p", p)
-	if id, ok := s.entIDs[key]; ok {
+	if id, ok := s.entIDs[fmt.Sprintf("%p", p)]; ok {
 		return id
 	}
-	id := len(s.entIDs) + 1
-	s.entIDs[key] = id
-	return id
+	return -1
+}
+
+func (s *Sim) newEntID(p any) int {
+	s.nEnt++
+	s.entIDs[fmt.Sprintf("%p", p)] = s.nEnt
+	return s.nEnt
 }
 
 func callerNum(role string) int {
@@ -202,7 +208,7 @@ func (s *Sim) normalize(e rawEvent) {
 	}
 	switch e.ev {
 	case "SendRegistered":
-		add("SendLock", "c", c, "outcome", "registered", "ent", s.entID(e.args[1]))
+		add("SendLock", "c", c, "outcome", "registered", "ent", s.newEntID(e.args[1]))
 	case "SendRefused":
 		add("SendLock", "c", c, "outcome", "refused", "ent", 0)
 	case "Tx":
